@@ -153,6 +153,50 @@ pub fn func(name: &str, mut args: Vec<SimpleExpr>) -> FunctionCall {
     }
 }
 
+fn bin_method(m: &str, l: SimpleExpr, rj: &J) -> SimpleExpr {
+    use sea_query::extension::postgres::PgExpr;
+    use sea_query::extension::sqlite::SqliteExpr;
+    if m == "equals" || m == "not_equals" {
+        assert!(rj["k"] == "col", "case error: {m} needs a column on the right");
+        let c = col_of(rj);
+        return if m == "equals" { ExprTrait::equals(l, c) } else { ExprTrait::not_equals(l, c) };
+    }
+    let r = expr(rj);
+    match m {
+        "add" => ExprTrait::add(l, r),
+        "sub" => ExprTrait::sub(l, r),
+        "mul" => ExprTrait::mul(l, r),
+        "div" => ExprTrait::div(l, r),
+        "modulo" => ExprTrait::modulo(l, r),
+        "left_shift" => ExprTrait::left_shift(l, r),
+        "right_shift" => ExprTrait::right_shift(l, r),
+        "bit_and" => ExprTrait::bit_and(l, r),
+        "bit_or" => ExprTrait::bit_or(l, r),
+        "and" => ExprTrait::and(l, r),
+        "or" => ExprTrait::or(l, r),
+        "eq" => ExprTrait::eq(l, r),
+        "ne" => ExprTrait::ne(l, r),
+        "gt" => ExprTrait::gt(l, r),
+        "gte" => ExprTrait::gte(l, r),
+        "lt" => ExprTrait::lt(l, r),
+        "lte" => ExprTrait::lte(l, r),
+        "is" => ExprTrait::is(l, r),
+        "is_not" => ExprTrait::is_not(l, r),
+        "pg_concatenate" => PgExpr::concatenate(l, r),
+        "pg_concat" => PgExpr::concat(l, r),
+        "pg_matches" => PgExpr::matches(l, r),
+        "pg_contains" => PgExpr::contains(l, r),
+        "pg_contained" => PgExpr::contained(l, r),
+        "pg_get_json_field" => PgExpr::get_json_field(l, r),
+        "pg_cast_json_field" => PgExpr::cast_json_field(l, r),
+        "sqlite_glob" => SqliteExpr::glob(l, r),
+        "sqlite_matches" => SqliteExpr::matches(l, r),
+        "sqlite_get_json_field" => SqliteExpr::get_json_field(l, r),
+        "sqlite_cast_json_field" => SqliteExpr::cast_json_field(l, r),
+        other => panic!("case error: unknown builder method {other}"),
+    }
+}
+
 pub fn expr(j: &J) -> SimpleExpr {
     let k = j["k"].as_str().unwrap_or_else(|| panic!("expr.k missing in {j}"));
     match k {
@@ -160,7 +204,11 @@ pub fn expr(j: &J) -> SimpleExpr {
         "val" => SimpleExpr::Value(to_value(&j["v"])),
         "const" => SimpleExpr::Constant(to_value(&j["v"])),
         "vals" => SimpleExpr::Values(j["vs"].as_array().unwrap().iter().map(to_value).collect()),
-        "bin" => expr(&j["l"]).binary(bin_oper(&st(j, "op")), expr(&j["r"])),
+        "bin" => match j.get("m").and_then(|m| m.as_str()) {
+            // the named builder method the case asks for (spec/expr_methods.json says which operator it denotes)
+            Some(m) => bin_method(m, expr(&j["l"]), &j["r"]),
+            None => expr(&j["l"]).binary(bin_oper(&st(j, "op")), expr(&j["r"])),
+        },
         "not" => expr(&j["e"]).not(),
         "between" => {
             let (e, x, y) = (expr(&j["e"]), expr(&j["a"]), expr(&j["b"]));
